@@ -175,7 +175,6 @@ func replaceName(names []string, from, to string) []string {
 	return out
 }
 
-
 // c01IterativeForm recognises the loop form of commitInner and decides the two clauses the
 // recursive form gets from the recursion (C01.2 view gate, C01.3 ancestor first):
 //
